@@ -208,8 +208,8 @@ if __name__ == "__main__":
     if cmd == "confirm":
         confirm(sys.argv[2:])
     elif cmd == "detect":
-        ids = sys.argv[2:] or sorted(os.path.basename(p) for p in glob.glob(f"{V}/seeded/C*_[mnpqrstu]*"))
+        ids = sys.argv[2:] or sorted(os.path.basename(p) for p in glob.glob(f"{V}/seeded/C*_[mnpqrstuv]*"))
         detect(ids, tier=os.environ.get("SEEDED_TIER", "quick"))
     elif cmd == "detect-parallel":
-        ids = sys.argv[2:] or sorted(os.path.basename(p) for p in glob.glob(f"{V}/seeded/C*_[mnpqrstu]*"))
+        ids = sys.argv[2:] or sorted(os.path.basename(p) for p in glob.glob(f"{V}/seeded/C*_[mnpqrstuv]*"))
         detect_parallel(ids, tier=os.environ.get("SEEDED_TIER", "quick"), workers=int(os.environ.get("SEEDED_WORKERS", "6")))
